@@ -172,3 +172,10 @@ package rgsw
 //@   requires indom(pt.Value, pt.MetaData.CiphertextMetaData.IsNTT) && dom(pt.Value) != 2 && mexp(pt.Value) == ite(pt.MetaData.CiphertextMetaData.IsMontgomery, 1, 0)
 //@   requires len(ct.Value[0].Value) >= 1 && len(ct.Value[0].Value[0]) >= 1 && len(ct.Value[0].Value[0][0]) == 2 && len(ct.Value[0].Value[0][0][0].Q.Coeffs) >= 1
 //@   ensures val(pt.Value) == old(val(pt.Value)) && mexp(pt.Value) == old(mexp(pt.Value)) && dom(pt.Value) == old(dom(pt.Value))
+
+// ---- any receiver that is not an RGSW ciphertext is forwarded to the rlwe encryptor AS IT IS (finding F49:
+// ---- the nil result of the failed type assertion was forwarded instead, so the call always failed)
+//@ afunc Encryptor.EncryptZero#rlwe
+//@   property C20
+//@   dyn ct *rlwe.Ciphertext
+//@   ensures true
